@@ -79,7 +79,7 @@ def long_chains(nmax=12):
     return uniq
 
 
-def assign(chain, motor=None, locking=False, with_data=False, init=None, load=None):
+def assign(chain, motor=None, locking=False, with_data=False, init=None, load=None, teeth_mode='rotating'):
     """Turn a grammar chain into a model spec with rotating parameter lists."""
     els = [dict(motor or MOTOR_PLAIN)]
     links = []
@@ -114,6 +114,13 @@ def assign(chain, motor=None, locking=False, with_data=False, init=None, load=No
         els.append(e)
         links.append(link)
         prev = e
+    if teeth_mode == 'equal':
+        # every mating has ratio exactly 1 (equal teeth; worm starts = wheel teeth)
+        for e in els:
+            if 'z' in e:
+                e['z'] = 20
+            if 'starts' in e:
+                e['starts'] = 20
     spec = {'elements': els, 'links': links,
             'load': load or ['const', 0.002],
             'init': init or {'theta': [0.0, 'rad'], 'w': [0.0, 'rad/s']}}
